@@ -29,8 +29,9 @@ RULE = ("real Oomd::Log (get_for_unittest, async) + real LogStream over a gated 
         "1 .. 5000 bytes).  non-trivial = >= 2 producers or a blocked "
         "sink, at least one line delivered, and at least one of: a drop was reported, a mark saw unwritten bytes, "
         "a silenced statement, a kmsg record")
-ASSUMPTIONS = ["no producer calls into the logger concurrently with or after Log::~Log (producers are parked or "
-               "finished before shutdown starts); lines offered then are outside 'accepted before shutdown'",
+ASSUMPTIONS = ["no producer calls into the logger after the io thread's final queue swap (a line offered then is lost by "
+               "construction: nobody is left to write it); family `late` offers lines while ~Log is already waiting but provably "
+               "before that swap (the io thread is blocked in the sink), which must be delivered",
                "the sink never fails (no badbit); only its speed varies",
                "the OLOG copy that kmsgLog sends to the process-wide singleton logger is not observed (the harness "
                "logger is a separate instance); the kmsg fd record is",
@@ -238,7 +239,22 @@ def gen_cut(rng):
     return {"family": "cut", "producers": prods, "sink": {"us": rng.choice([0, 0, 20, 200])}, "script": script}
 
 
+def gen_late(rng):
+    """lines logged while ~Log is already waiting for the io thread (which is blocked in the sink on an earlier batch): the
+    destructor's final queue swap has not happened yet, so these lines are accepted like any other and must be written"""
+    np_ = rng.randint(1, 4)
+    prods = []
+    for p in range(np_):
+        prods.append(body(rng, rng.randint(1, 6)) + [{"k": "bar", "i": 0}] + body(rng, rng.randint(1, 5)))
+    script = [{"k": "close"}, {"k": "arrive", "i": 0}, {"k": "blocked", "ms": 400}, {"k": "shutdown_late", "i": 0}]
+    return {"family": "late", "producers": prods, "sink": {"us": 0}, "script": script}
+
+
 def gen(rng, tier):
+    for _ in range({"quick": 3, "thorough": 40, "search": 8}[tier]):
+        sc = gen_late(rng)
+        sc["jitter"] = rng.choice([0, 0, 2, 5])
+        yield sc
     for sc in _gen(rng, tier):
         # schedule widening inside the critical sections; has an effect only when the tree carries the trace hooks
         sc["jitter"] = rng.choice([0, 0, 2, 5, 20])
